@@ -1249,6 +1249,49 @@ fn set_sweep<K: El, const N: usize>(name: &str, fam: &str, seed: u64) -> Result<
     Ok(())
 }
 
+/// `Extend<&T>` (needs `T: Copy`) with elements whose equal values are distinguishable: it must
+/// behave like `insert` per item — the element already stored stays, the supplied copy is discarded —
+/// and like the by-value `extend` of the copies.
+fn extend_ref_scenario<const N: usize>(seed: u64) -> Result<(), String> {
+    let mut rng = Rng(seed ^ 0xe87e_4d);
+    for _ in 0..12 {
+        let mut s: Set<Ci, N> = Set::new();
+        let mut r: Vec<Ci> = Vec::new();
+        for _ in 0..rng.below(N as u32 + 1) {
+            let x = Ci::make(rng.below(7), rng.below(3));
+            if !r.iter().any(|y| *y == x) && r.len() < N {
+                s.insert(x);
+                r.push(x);
+            }
+        }
+        let items: Vec<Ci> = (0..rng.below(5)).map(|_| Ci::make(rng.below(7), rng.below(3))).collect();
+        let mut want = r.clone();
+        let mut fits = true;
+        for x in &items {
+            if !want.iter().any(|y| y == x) {
+                if want.len() == N {
+                    fits = false;
+                    break;
+                }
+                want.push(*x);
+            }
+        }
+        let mut by_val = s.clone();
+        let got = quiet(|| s.extend(items.iter()));
+        let got_v = quiet(|| by_val.extend(items.iter().copied()));
+        if got.is_ok() != fits || got_v.is_ok() != fits {
+            bail!("Set<Ci, {N}>: extend of {} items (by reference / by value): panic = {} / {}, expected {}", items.len(), got.is_err(), got_v.is_err(), !fits);
+        }
+        if fits {
+            let w = sorted(want.iter().map(|x| x.id()).collect::<Vec<_>>());
+            if set_ids(&s) != w || set_ids(&by_val) != w {
+                bail!("Set<Ci, {N}>: after extend by reference the set holds {:?}, by value {:?}, inserting one by one gives {w:?}", set_ids(&s), set_ids(&by_val));
+            }
+        }
+    }
+    Ok(())
+}
+
 /// every shape, one family string; `"ok"` or the first discrepancy
 pub fn run<const N: usize>(fam: &str, seed: u64) -> String {
     macro_rules! shape {
@@ -1297,6 +1340,9 @@ pub fn run<const N: usize>(fam: &str, seed: u64) -> String {
         sshape!(&'static str);
         sshape!(String);
         sshape!(RcE);
+        if let Err(e) = extend_ref_scenario::<N>(seed) {
+            return e;
+        }
     }
     // every reference-counted element made during the sweep is back to one owner (this list):
     // nothing leaked, nothing destroyed twice
